@@ -81,11 +81,11 @@ func genC31(seed uint64, tier string) any {
 		case 8:
 			sc.Events = append(sc.Events, c31Event{Kind: "restore", Off: r.Intn(8)})
 		case 1:
-			if sc.KeyMode == "explicit" {
+			if sc.KeyMode == "explicit" || sc.KeyMode == "legacy" {
 				sc.Events = append(sc.Events, c31Event{Kind: "rotate_keep"})
 			}
 		case 2:
-			if sc.KeyMode == "explicit" {
+			if sc.KeyMode == "explicit" || sc.KeyMode == "legacy" {
 				sc.Events = append(sc.Events, c31Event{Kind: "rotate_drop"})
 			}
 		case 3:
@@ -201,7 +201,10 @@ func execC31(t *testing.T, scAny any, keepLog bool) *Outcome {
 			}
 			srvB.SetSessionTicketKeys([][32]byte{newKey()})
 		case "legacy":
+			// the server starts from the legacy single-key field; a later SetSessionTicketKeys replaces it (the
+			// old key stays valid only if the new list names it)
 			srvA.SessionTicketKey = newKey()
+			keysA = [][32]byte{srvA.SessionTicketKey}
 			srvB.SessionTicketKey = newKey()
 		}
 		// what tls.Server is given for connections to A: A's Config itself, or a listener Config that hands A's
@@ -261,7 +264,7 @@ func execC31(t *testing.T, scAny any, keepLog bool) *Outcome {
 			}
 			switch ev.Kind {
 			case "rotate_keep", "rotate_drop":
-				if sc.KeyMode != "explicit" {
+				if sc.KeyMode != "explicit" && sc.KeyMode != "legacy" {
 					continue
 				}
 				nk := newKey()
@@ -365,7 +368,7 @@ func execC31(t *testing.T, scAny any, keepLog bool) *Outcome {
 					kindName = "altered"
 				case 2:
 					for i := range issued {
-						if issued[i].ByA && sc.KeyMode == "explicit" && !validEpochs[issued[i].KeyEpoch] && !bytes.Equal(issued[i].Bytes, tk) {
+						if issued[i].ByA && (sc.KeyMode == "explicit" || sc.KeyMode == "legacy") && !validEpochs[issued[i].KeyEpoch] && !bytes.Equal(issued[i].Bytes, tk) {
 							extra, kindName = issued[i].Bytes, "rotated_out"
 						}
 					}
@@ -379,7 +382,7 @@ func execC31(t *testing.T, scAny any, keepLog bool) *Outcome {
 				if extra == nil {
 					extra = kit.NewRng(uint64(ev.Off)).Bytes(60 + ev.Off%120)
 				}
-				if fe := find(extra); fe != nil && fe.ByA && (sc.KeyMode != "explicit" || validEpochs[fe.KeyEpoch]) {
+				if fe := find(extra); fe != nil && fe.ByA && (sc.KeyMode == "auto" || validEpochs[fe.KeyEpoch]) {
 					continue // by chance an identity the server may accept: nothing to assert
 				}
 				secret, nonce := tls.VerifSessionSecret(cur)
@@ -510,7 +513,7 @@ func execC31(t *testing.T, scAny any, keepLog bool) *Outcome {
 						o.Fail = Failf("c31.safety", "resumed from a ticket issued by a foreign server", "connection %d", connIdx)
 					case sc.KeyMode == "auto" && !timeIn(it.AutoKey, autoKeys):
 						o.Fail = Failf("c31.safety", "resumed from a ticket sealed under an automatically rotated key that should have been dropped after seven days", "connection %d: key created %v ago, ticket issued %v ago", connIdx, clock().Sub(it.AutoKey), clock().Sub(it.At))
-					case sc.KeyMode == "explicit" && !validEpochs[it.KeyEpoch]:
+					case (sc.KeyMode == "explicit" || sc.KeyMode == "legacy") && !validEpochs[it.KeyEpoch]:
 						o.Fail = Failf("c31.safety", "resumed from a ticket sealed under a rotated-out key", "connection %d: ticket key epoch %d, current epochs %v", connIdx, it.KeyEpoch, validEpochs)
 					case clock().Sub(it.At) > 7*24*time.Hour+time.Minute:
 						o.Fail = Failf("c31.lifetime", "resumed from a ticket older than the documented seven-day lifetime", "connection %d: ticket age %v", connIdx, clock().Sub(it.At))
@@ -604,11 +607,13 @@ func mutateTicket(tk []byte, ev c31Event, issued []issuedTicket) []byte {
 		}
 		out[pos] ^= 1 << uint(ev.Bit)
 	case "trunc":
-		k := []int{1, 32, n - 47, n - 1}[ev.Off%4]
-		if k <= 0 || k >= n {
-			k = 1
+		// remaining length: a little shorter, without the MAC, and every boundary of the fixed-size fields
+		// (16-byte key name, 16-byte IV, 32-byte MAC)
+		keep := []int{n - 1, n - 32, 47, 1, 15, 16, 17, 31, 32, 33, 48, 49, 55, 63, 64, 65, 79, 80}[ev.Off%18]
+		if keep <= 0 || keep >= n {
+			keep = n - 1
 		}
-		out = out[:n-k]
+		out = out[:keep]
 	case "extend":
 		out = append(out, byte(ev.Off), byte(ev.Bit))
 	case "splice":
